@@ -739,6 +739,15 @@ type uncomparablePanic struct{ codes []int }
 
 func (u uncomparablePanic) Error() string { return fmt.Sprint("uncomparable ", u.codes) }
 
+// panic values that cannot be asked what they are without panicking again
+type touchyErr struct{ msg string }
+
+func (t *touchyErr) Error() string { return t.msg }
+
+type touchyStringer struct{}
+
+func (touchyStringer) String() string { panic("String() of the panic value panics") }
+
 func misbehave(e *Env) {
 	g := G{e.S}
 	customRecover := g.Bool()
@@ -807,7 +816,7 @@ func misbehave(e *Env) {
 				}
 				switch {
 				case g.Pct(15):
-					h.panics[ev.seq] = g.Intn(8)
+					h.panics[ev.seq] = g.Intn(10)
 					panicsPlanned++
 				case h.bg && g.Pct(10):
 					h.blocks[ev.seq] = true
@@ -837,6 +846,13 @@ func misbehave(e *Env) {
 						panic(map[string]int{"seq": q})
 					case 7:
 						panic(uncomparablePanic{[]int{q}})
+					case 8:
+						// "any value": an error whose own Error method panics (a nil
+						// pointer in a non-nil interface)
+						var te *touchyErr
+						panic(error(te))
+					case 9:
+						panic(touchyStringer{})
 					default:
 						var p *hinfo
 						_ = p.id
